@@ -1632,9 +1632,12 @@ static void emit_text(Obj *prog) {
 
     // Save arg registers if function is variadic
     if (fn->va_area) {
-      int gp = 0, fp = 0;
+      // The unnamed arguments on the stack follow the named ones.
+      int gp = 0, fp = 0, overflow = 16;
       for (Obj *var = fn->params; var; var = var->next) {
-        if (is_flonum(var->ty))
+        if (var->offset > 0)
+          overflow = MAX(overflow, align_to(var->offset + var->ty->size, 8));
+        else if (is_flonum(var->ty))
           fp++;
         else
           gp++;
@@ -1646,7 +1649,7 @@ static void emit_text(Obj *prog) {
       println("  movl $%d, %d(%%rbp)", gp * 8, off);          // gp_offset
       println("  movl $%d, %d(%%rbp)", fp * 8 + 48, off + 4); // fp_offset
       println("  movq %%rbp, %d(%%rbp)", off + 8);            // overflow_arg_area
-      println("  addq $16, %d(%%rbp)", off + 8);
+      println("  addq $%d, %d(%%rbp)", overflow, off + 8);
       println("  movq %%rbp, %d(%%rbp)", off + 16);           // reg_save_area
       println("  addq $%d, %d(%%rbp)", off + 24, off + 16);
 
